@@ -55,6 +55,9 @@ func (s *Scheduler) Schedule(g *ExecutionGraph) error {
 				if err != nil {
 					logrus.Error(err)
 					stage.UpdateStatus(StatusError)
+					if !stage.AllowFailure {
+						g.error = err
+					}
 					s.Cancel()
 					continue
 				}
